@@ -270,7 +270,7 @@ theorem sortLevelZero_invT {P : Params} {c : Cmp α} {s : Sketch α} {inp : List
   · exact h
   · obtain ⟨l0, t, hL⟩ : ∃ l0 t, s.levels = l0 :: t := ⟨_, _, levels_eq_cons hs⟩
     have hm := h.mem; have he := h.exact
-    simp only [hL, List.headD_cons, List.tail_cons] at hm he ⊢
+    simp only [hL, sortHead, List.headD_cons] at hm he ⊢
     refine ⟨h.n_eq, ?_, h.min_ok, h.max_ok, ?_⟩
     · intro y hy
       simp only [List.flatten_cons, List.mem_append] at hy hm
